@@ -7,6 +7,7 @@
 
 #include <algorithm>
 
+#include "ambient.h"
 #include "contain.h"
 #include "heap.h"
 #include "single.h"
@@ -194,6 +195,36 @@ void *threadMain(void *vp) {
 }
 
 void allocHook() { point(0, true); }
+
+// A task cannot proceed (lock held by a parked task, sleep): force a hand-over.
+// In replay the recorded hand-over is found in the list at the current step.
+void yieldBlocked() {
+    TaskRt *t = tl_rt;
+    if (!t || !g.active) return;
+    int next = -1;
+    if (g.cfg.forced) {
+        const auto &s = g.cfg.schedule;
+        while (g.forcedPos < s.size() && s[g.forcedPos].step < g.step) g.forcedPos++;
+        if (g.forcedPos < s.size() && s[g.forcedPos].step == g.step && runnable(s[g.forcedPos].next)) {
+            next = s[g.forcedPos].next;
+            g.forcedPos++;
+        } else {
+            for (auto *x : g.tasks)
+                if (!x->done && x->id != t->id) {
+                    next = x->id;
+                    break;
+                }
+        }
+    } else {
+        next = randomRunnable(t->id);
+    }
+    t->opSteps += 1000;  // a blocked wait costs budget, so a true deadlock ends as CALL_HUNG
+    if (t->opBudget && t->opSteps > t->opBudget) {
+        t->opBudget = 0;
+        containAbortHung();
+    }
+    if (next >= 0 && next != t->id && runnable(next)) handOver(t, next, t->lastGuard);
+}
 }  // namespace
 
 extern "C" {
@@ -220,6 +251,7 @@ void __sanitizer_cov_trace_pc_guard(uint32_t *guard) {
 
 SchedStats schedRun(int nTasks, const SchedConfig &cfg, const TaskBody &body) {
     heapSchedHook = allocHook;
+    ambientYieldHook = yieldBlocked;
     g.cfg = cfg;
     g.rng.reseed(cfg.seed);
     g.tasks.clear();
